@@ -597,6 +597,11 @@ def layout_data():
 
 
 def orc_layout(ctx, op, req, impl, model, spec):
+    if op == "dirv" and impl.startswith("ok "):
+        f = impl.split(" ")
+        if f[1] != f[2]:
+            return "variants change the direction: %s without, %s with -1996-macos" % (f[1], f[2])
+        return None
     if op not in ("dir", "locdir") or not impl.startswith("ok"):
         return None
     if spec and spec.startswith("must ") and impl[3:] != spec[5:]:
@@ -805,7 +810,7 @@ PROPS = {
     "C12": Prop("C12", [("rel", None), ("glue_misc", None)], {"rel", "eqstr", "subeq", "route"}, proj_full, orc_c12, design_ref="4/C12"),
     "C13": Prop("C13", S(["tokens"], "conv") + S(["wf", "near", "raw"], "conv,convx"), {"conv", "convx"}, proj_c13, orc_c13,
                 design_ref="4/C13"),
-    "C14": Prop("C14", [("layoutnames", None)] + S(["triples"], "dir"), {"dir", "locdir"}, proj_full, orc_c14, design_ref="4/C14",
+    "C14": Prop("C14", [("layoutnames", None)] + S(["triples"], "dir,dirv"), {"dir", "locdir", "dirv"}, proj_full, orc_c14, design_ref="4/C14",
                 configs=[("likely", ALL_FEATURES), ("nolikely", ("macros", "serde"))]),
     "C16": Prop("C16", [("macros", None)], {"mac"}, proj_c16, orc_c16, design_ref="4/C16"),
     "C18": Prop("C18", [("layoutnames", None), ("tablemisc", None)] + S(["triples"], "max,dir"), {"max", "dir", "cldrversion"}, proj_full, orc_c18,
@@ -952,7 +957,7 @@ def judge(cfg, req, impl, mo, ctx):
     """returns (disagreement?, oracle message or None)"""
     op = req.split(" ", 1)[0]
     model, spec = split_model(mo)
-    if op in ("dir", "locdir") and spec is not None:
+    if op in ("dir", "locdir", "dirv") and spec is not None:
         # the model answers for both builds, then the clause oracle: `<with likelysubtags>\t<without>\t<must DIR | free>`
         cols = mo.split("\t")
         model = cols[0] if ctx.get("likely", True) else cols[1]
